@@ -134,14 +134,25 @@ def dump_histories(db, rng: random.Random, wd, tier: str):
                 lines.append(ln)
                 multi_ids.append(d["id"])
     multi_ids = sorted(set(multi_ids))
+    # fast-packet messages delivered frame by frame (EByte packets): the dump line is the JSON of the message as returned
+    from .. import fastpacket as fp
+    for q, fill in ((1, 0x11), (2, 0x22), (3, 0x33)):
+        full = bytes([0x10 + q, 0x20, 0x00, 0x10, 0x20, 0x01, fill, 0x02, 0x03, 0x00, 0x05, 0x06, 0x07, 0x00])      # distance log
+        pkts, i, pos = [], 0, 0
+        while pos < len(full):
+            cap_ = 6 if i == 0 else 7
+            pkts.append(fp.ebyte_packet(128275, 9, 255, 6, fp.can_data(q, i, len(full), list(full[pos:pos + cap_]))))
+            pos += cap_
+            i += 1
+        lines.append(("tcp", pkts))
     rng.shuffle(lines)
     filters = [([], []), ([127250], []), ([], ["windData"]), ([], ["furunoHeave"]), ([130306], ["configurationInformation"]),
                ([65280, 126998], []), ([], ["vesselHeading", "configurationInformation"]), ([1], ["noSuchId"]),
-               ([60416], [])]
+               ([60416], []), ([128275], []), ([], ["distanceLog"])]
     filters += [([], [i]) for i in multi_ids] + [([127250], [multi_ids[-1]]), ([], multi_ids[:2] + ["windData"])]
-    all_ids = ["vesselHeading", "windData", "furunoHeave", "configurationInformation"] + multi_ids
+    all_ids = ["vesselHeading", "windData", "furunoHeave", "configurationInformation", "distanceLog"] + multi_ids
     for _ in range({"quick": 6, "thorough": 40, "selftest": 0}[tier]):
-        filters.append((rng.sample([127250, 130306, 65280, 126998, 60416], rng.randint(0, 2)), rng.sample(all_ids, rng.randint(1, 3))))
+        filters.append((rng.sample([127250, 130306, 65280, 126998, 60416, 128275], rng.randint(0, 2)), rng.sample(all_ids, rng.randint(1, 3))))
     recs, meta = [], []
     for n, (nums, ids) in enumerate(filters):
         path = wd / f"dump{n}" / "out.jsonl"
@@ -149,7 +160,12 @@ def dump_histories(db, rng: random.Random, wd, tier: str):
         out = []
         for ln in lines:
             try:
-                m = dec.decode_basic_string(ln, already_combined=True)
+                if isinstance(ln, tuple):
+                    m = None
+                    for pk_ in ln[1]:
+                        m = dec.decode_tcp(pk_)
+                else:
+                    m = dec.decode_basic_string(ln, already_combined=True)
             except Exception:              # noqa: BLE001
                 m = None
             if m is not None:
